@@ -93,3 +93,17 @@ Lemma short_buffer_retry_ok :
   = (mkConn false 1 [116%N] 7,
      ROk (fin_val 0 9 [act_val 1 7 [] [97%N; 98%N] 0; act_val 0 3 [] [99%N; 100%N; 101%N] 0]), []).
 Proof. vm_compute. reflexivity. Qed.
+
+(* Read into a 1-byte buffer (values "ab", "cde"), response cut at ANY byte — before, inside or
+   after the value that does not fit: io.ErrUnexpectedEOF (never io.ErrShortBuffer) and the Conn
+   is closed *)
+Lemma short_buffer_cut_anywhere :
+  length (frame 1 (enc (resp_ty AFetch 2) w_fetch_two)) = 114%nat /\
+  forall k, (k < 114)%nat ->
+  exists st' s', conn_do (fresh [116%N]) (mkOp (AFetchRead [1]) 2 7)
+                   (firstn k (frame 1 (enc (resp_ty AFetch 2) w_fetch_two)))
+                 = (st', RErr EUnexpEOF, s') /\ closed st' = true.
+Proof.
+  split; [vm_compute; reflexivity|].
+  intros k Hk. assert (Hc : In k (seq 0 114)) by (apply in_seq; lia). all_cuts.
+Qed.
